@@ -28,11 +28,13 @@ def scan(verif):
     """Mechanical scan of the harness / Verus sources for unchecked assumptions."""
     out = []
     pats = [r"ch::assume\(", r"kani::assume\(", r"\badmit\(", r"external_body", r"assume_specification", r"kani::stub", r"assume\(false\)"]
-    for root in ("kani", "verus"):
+    for root in ("kani", "verus", "."):
         d = os.path.join(verif, root)
         if not os.path.isdir(d):
             continue
         for fn in sorted(os.listdir(d)):
+            if root == "." and fn != "verus_targets.py":
+                continue
             p = os.path.join(d, fn)
             if not os.path.isfile(p):
                 continue
@@ -104,7 +106,7 @@ UNCOVERED.update({
     "C03": ["lazy(): bounded to 2 trailing tokens", "the identity of the primary error at top level is compared natively only (reading the error buffer is out of CBMC's reach)"],
     "C04": ["to_slice/ignored etc. are compared with their value-building form through a common specification, not by a two-run product"],
     "C05": ["error list contents compared by length under CBMC", "recovery inside folds: by composition only"],
-    "C06": ["Rich::merge of two expected/found reasons (RichReason::flat_merge's list loop) exhausts CBMC's memory (> 24 GB in every case split tried): not under contract, and neither is Rich::merge with a user error on one side (tried in round 3: the same list loop is explored symbolically behind the boxed reason, > 15 min): which span a merged Rich error keeps is therefore not decided; its twin on the add_alt path, Rich::merge_expected_found, is under contract (bounded: one expectation per side)", "the real error types are proved with a bounded number of expectations per error (<= 2; <= 1 per side for merges), spans / found tokens / pattern kinds fully symbolic; Vec growth (realloc) is not exercised (lists are built with spare capacity)", "filter(): found token of a rejection is not asserted (the library reports none)"],
+    "C06": ["Rich::merge: which span the merged error keeps is decided by Verus on the extracted function (span of the pending error, as Cheap/Simple) with RichReason::flat_merge as an assumed callee without contract; what flat_merge itself computes (union of the expected lists, user error preserved) is NOT under contract: its list loop exhausts CBMC's memory (> 24 GB in every case split tried; tried again in round 3 with a user error on one side, > 15 min) and its iterator code is outside Verus; its twin on the add_alt path, Rich::merge_expected_found, is under contract (bounded: one expectation per side)", "the real error types are proved with a bounded number of expectations per error (<= 2; <= 1 per side for merges), spans / found tokens / pattern kinds fully symbolic; Vec growth (realloc) is not exercised (lists are built with spare capacity)", "filter(): found token of a rejection is not asserted (the library reports none)"],
     "C07": ["IterInput/MappedInput: the empty-match clause with a token ahead is a recorded finding (two entries); at the end of input it holds and is asserted", "Stream/IoInput slices n/a"],
     "C08": ["nested_delimiters is a grammar built from combinators that are each under contract (recursive, delimited_by, or, repeated, and_is, none_of, map_with); the composition itself (real recursion through Rc/dyn plus two nested loops) is beyond the solver's time limit and is NOT checked: a change confined to how nested_delimiters assembles them is not detected", "skip strategies bounded to 2 rounds"],
     "C09": ["pratt_go loop: bounded (against real infix operators: 2 operands; against the stub operator table: 2 operator applications, operands nest one level deep; stubs emit nothing)", "tuple tables of arity > 2", "prefix/postfix tables beyond the single-operator steps"],
